@@ -433,6 +433,23 @@ func (g *Gen) next(t Tree) Op {
 				}
 				return op
 			}
+			if g.o.Late && ent.Kind == "f" && r.Intn(5) == 0 && !(hasCodecSuffix(e) && !g.plainCodec()) {
+				// a handle is opened, the entry's mode or owner is changed through the filesystem, then the handle writes and closes:
+				// the flush must not bring back the attributes the entry had when the handle was opened
+				fl := []int{os.O_RDWR, os.O_WRONLY}[r.Intn(2)]
+				if r.Intn(3) == 0 {
+					fl |= os.O_APPEND
+				}
+				op := Op{K: "lateattr", A: e, Flag: fl, Perm: perms[r.Intn(len(perms))], Uid: -1, Gid: -1}
+				if r.Intn(2) == 0 {
+					op.Uid, op.Gid = 1000+r.Intn(5000), 100+r.Intn(5000)
+				}
+				g.data(&op)
+				if op.Len == 0 {
+					op.Len = 1 + r.Intn(40)
+				}
+				return op
+			}
 			if r.Intn(3) == 0 {
 				if ent.Kind == "f" && hasCodecSuffix(e) && !g.plainCodec() {
 					continue
